@@ -301,7 +301,7 @@ def c13(tier):
 
 
 def c14(tier):
-    combos = [(4, 0)] if tier == "quick" else [(4, 0), (4, 1), (8, 0)]
+    combos = [(4, 0)] if tier == "quick" else [(4, 0), (8, 0)]
     jobs = [Job("h_hist::time_travel", c, dict(S2), budget_s=3000, validate=30) for c in combos]
     jobs.append(Job("h_hist::time_travel_rounds", (2 if tier == "quick" else 4,), dict(S2), budget_s=3000, validate=5))
     # a reader opened cold on a chain of 5 array versions travels to two earlier points in a row (default / symbolic cache capacities)
